@@ -29,7 +29,7 @@ import (
 func genC09(t *rapid.T) CacheCase {
 	o := worldOpts()
 	o.MaxTuples = 20
-	w := gen.GenWorld(t, o)
+	w := gen.AnyWorld(t, o)
 	c := CacheCase{World: w, Cfg: genCacheCfg(t, false, true)}
 	n := rapid.IntRange(4, 12).Draw(t, "nOps")
 	var prev []m.Request
@@ -78,7 +78,7 @@ type C10Case struct {
 
 func genC10(t *rapid.T) CacheCase {
 	o := worldOpts()
-	w := gen.GenWorld(t, o)
+	w := gen.AnyWorld(t, o)
 	c := CacheCase{World: w, Cfg: genCacheCfg(t, false, false)}
 	c.Cfg.Controller = rapid.Bool().Draw(t, "controller")
 	cur := append([]m.Tuple{}, w.Tuples...)
